@@ -29,9 +29,9 @@ func (r Range) Index(i int) any { return r.b + i }
 
 // AsArray converts the range into an array.
 func (r Range) AsArray() []any {
-	a := make([]any, 0, r.Len())
-	for i := r.b; i <= r.e; i++ {
-		a = append(a, i)
+	a := make([]any, r.Len())
+	for i := range a { // (counting i up to r.e would never end when r.e is MaxInt)
+		a[i] = r.b + i
 	}
 	return a
 }
